@@ -679,7 +679,8 @@ def run(ck):
                                 'nameprovider_files': n_np, 'lean_driver_ops': drv.n}
     ck.cov['unique_theorem_applicability'] = {'runs_where_all_hypotheses_hold': d.get('theorem-applies', 0),
                                               'runs_where_some_hypothesis_fails': d.get('theorem-not-applicable', 0)}
-    ck.level = 'proof-partial'
+    ck.level = 'proof'
+    ck.notes.append('partial: uniqueness and non-emptiness hold only under decidable hypotheses evaluated per run; the full-strength property is refuted by three proved counterexamples replayed on the real driver (open known findings)')
     ck.assumptions += [
         'uniqueness is proved under decidable hypotheses evaluated on every run: source names suffix-free, every link source named when used, sibling labels distinct, plain-child safety, delivered cells are leaves',
         'the exported graph (cvt:writegraph) lists the link entries in the order PresolveNames executes them',
